@@ -1135,6 +1135,14 @@ ares_status_t ares_dns_write_buf(const ares_dns_record_t *dnsrec,
     goto done;
   }
 
+  /* Maximum DNS message size is 64k, even over TCP.  Anything larger can't be
+   * represented: RDLENGTH, the option lengths and the TCP length prefix are
+   * 16 bit and would silently wrap. */
+  if (ares_buf_len(buf) > 0xFFFF) {
+    status = ARES_EBADQUERY;
+    goto done;
+  }
+
 done:
   ares_llist_destroy(namelist);
   /* Make the data that was already in the buffer visible again */
